@@ -10,6 +10,7 @@
 #include "corecel/data/AuxStateVec.hh"
 #include "corecel/data/Copier.hh"
 #include "corecel/sys/ActionRegistry.hh"
+#include "corecel/sys/VerifHook.hh"
 #include "celeritas/global/ActionInterface.hh"
 #include "celeritas/global/ActionLauncher.hh"
 #include "celeritas/global/CoreParams.hh"
@@ -148,6 +149,7 @@ void StatusChecker::begin_run_impl(CoreParams const& params)
         }
     }
     CELER_ASSERT(build_orders.size() == reg.num_actions());
+    CELER_VERIF_YIELD("StatusChecker::begin_run_impl:before-assign");
 
     // Construct host/device data
     data_ = CollectionMirror{std::move(host_val)};
